@@ -127,7 +127,7 @@ func ruleC16R1(c *Ctx) {
 			p := P[k]
 			nP++
 			construct := fmt.Sprintf("%s: constructor %s %s(%s)", owner, p.Kind, p.Fn, p.Args)
-			if why, ok := c16Reviewed[anchorName(p.In)+"|"+p.Kind+"|"+p.Fn]; ok {
+			if why, ok := lookupReviewed(c16Reviewed, anchorName(p.In)+"|"+p.Kind+"|"+p.Fn); ok {
 				c.assumed("C16.R1", p.In, construct, p.Pos, "reviewed: "+why)
 				continue
 			}
@@ -286,7 +286,7 @@ func ruleC16R2(c *Ctx) {
 			}
 			nPanic++
 			name := anchorName(f)
-			if why, ok := c16R2Reviewed[name]; ok {
+			if why, ok := lookupReviewed(c16R2Reviewed, name); ok {
 				c.assumed("C16.R2", f, "explicit panic reachable from configuration loading", in.Pos(), "reviewed: "+why)
 				return
 			}
